@@ -604,7 +604,8 @@ func (g *commonGen) maybeFault(w *World, st *Step) {
 	st.Fault = &FaultDirective{Index: g.r.Intn(5), Kind: kinds[g.r.Intn(len(kinds))]}
 	if g.r.Chance(1, 3) {
 		// aim at one kind of call
-		sites := []string{"db.Load", "db.Save", "db.UseRememberToken", "db.AddRememberToken", "hash.cmp", "hash.gen", "render.view", "sms.send", "db.LoadByRecoverSelector", "db.LoadByConfirmSelector"}
+		sites := []string{"db.Load", "db.Save", "db.UseRememberToken", "db.AddRememberToken", "hash.cmp", "hash.gen", "render.view", "sms.send", "db.LoadByRecoverSelector", "db.LoadByConfirmSelector",
+			"db.DelRememberTokens", "idp.token", "idp.userinfo", "mail.send", "db.Create", "db.SaveOAuth2", "db.NewFromOAuth2"}
 		st.Fault.Site = sites[g.r.Intn(len(sites))]
 		st.Fault.Index = g.r.Intn(2)
 	}
